@@ -176,6 +176,21 @@ def diffs(ctx, shard, nshards):
             sub.evaluations += 1
             if b // 86400 != n:
                 sub.nontrivial_count += 1
+        # mixed spellings: the reference as @N (seconds since the epoch), the others civil
+        ea = R.epoch(n, s)
+        if abs(ea) < 9 * 10 ** 9:
+            try:
+                out, _ = run_lines(ctx.build, "ddiff", ["-f", "%S", "--", "@%d" % ea], lines)
+            except BatchError as e:
+                V.add("batch:ddiff@", {"a": "@%d" % ea, "kind": "batch"}, detail=str(e), actual=e.result.brief())
+                continue
+            for b, l, o in zip(Bs, lines, out):
+                x = "%d" % (b - A)
+                sub.evaluations += 1
+                if o != x:
+                    V.add("ddiff@:%%S:%s" % ("far" if abs(b - A) > I32 else "near"),
+                          {"a": "@%d" % ea, "b": l, "kind": "diff", "d": b - A}, expected=x, actual=o,
+                          weight=abs(b - A))
     if shard == 0:
         sub.sample({"cmd": "ddiff 2012-03-05T12:00:00 2012-03-06T11:00:00 -f %S", "expected": "82800"})
     return sub
@@ -254,7 +269,7 @@ def replay(ctx, subname, case):
         x = dt_text(case["rep"], *divmod(t, 86400))
         return None if out[0] == x else {"in": case["in"], "dur": case["dur"], "expected": x, "actual": out[0]}
     if k == "diff":
-        out, _ = run_lines(ctx.build, "ddiff", [case["a"], "-f", "%S"], [case["b"]])
+        out, _ = run_lines(ctx.build, "ddiff", ["-f", "%S", "--", case["a"]], [case["b"]])
         x = "%d" % case["d"]
         return None if out[0] == x else {"a": case["a"], "b": case["b"], "expected": x, "actual": out[0]}
     if k in ("to", "from", "at", "mil"):
